@@ -17,7 +17,8 @@ from pytestarch.eval_structure.evaluable_graph import EvaluableArchitectureGraph
 from pytestarch.eval_structure.networkxgraph import NetworkxGraph
 from pytestarch.eval_structure_generation.file_import.import_types import AbsoluteImport
 
-warnings.simplefilter("ignore", DeprecationWarning)
+# pytestarch's @deprecated decorator re-enables DeprecationWarning on every call; keep the check output clean
+warnings.showwarning = lambda *a, **k: None
 
 # --------------------------------------------------------------------------- architectures
 
